@@ -285,9 +285,8 @@ def run_file(spec, res):
         except Exception as e:
             res.hook('arlpackedbit.return')
             res.ev(digest(spec), True, 'file-open-raised')
-            lenh = 108 + sum(8 + 8 * len(
-                spec['sfckeys'] if li == 0 else spec['laykeys'])
-                for li in range(len(spec['levels'])))
+            lenh = 108 + sum(8 + 8 * len(refarl.level_keys(spec, li))
+                             for li in range(len(spec['levels'])))
             res.viol('arl-reader-raised:%s' % type(e).__name__,
                      'arlpackedbit on a reference file (nx=%d ny=%d, %d '
                      'levels, LENH=%d) raised %r' % (
@@ -298,7 +297,11 @@ def run_file(spec, res):
             return
         keys = list(f.variables.keys())
         ratios, headrooms = [], []
-        for k in spec['sfckeys'] + spec['laykeys']:
+        allkeys = spec['sfckeys'] + spec['laykeys'] + (
+            [spec['layextra']['key']] if spec.get('layextra') else [])
+        if spec.get('layextra'):
+            res.facet('variable-only-at-upper-levels')
+        for k in allkeys:
             if k not in keys:
                 problems.append('variable %s not exposed (%s)' % (k, keys))
                 continue
